@@ -105,6 +105,7 @@ FileHoldsReleased(u, ref) ==
       is == {i \in 1..Len(rs) : rs[i].ref = ref} IN
   f.exists /\ f.parsed /\ f.complete /\ Len(f.recs) = 1 /\ is # {}
   /\ f.recs[1].tlvOk /\ SameRec(f.recs[1], rs[CHOOSE i \in is : \A j \in is : j <= i])
+UKnown(u) == u \in DOMAIN Ev.state.ue /\ Ev.state.ue[u].known
 Oversize(u) == \E i \in 1..Len(Ev.state.ue[u].recs) : Ev.state.ue[u].recs[i].berLen > 65535
 
 (* C06 per answered usage entry *)
@@ -202,9 +203,9 @@ StepUpdate ==
               \cup (IF ~known /\ obs # pre
                       THEN {V("C12", "rejection_no_effect", [status |-> resp.status, acct |-> obs.acct # pre.acct,
                                                             stale |-> a.ref \in DOMAIN h.sess])} ELSE {})
-              \cup (IF known /\ ok /\ ~Oversize(u) /\ ~FileHoldsAll(u)
+              \cup (IF known /\ ok /\ UKnown(u) /\ ~Oversize(u) /\ ~FileHoldsAll(u)
                       THEN {V("C02", "file_matches_records", [after |-> "update", split |-> grew])} ELSE {})
-              \cup (IF known /\ partial /\ ~(\E i \in 1..Len(obs.ue[u].recs) :
+              \cup (IF known /\ partial /\ ~(u \in DOMAIN obs.ue /\ \E i \in 1..Len(obs.ue[u].recs) :
                                                obs.ue[u].recs[i].ref = a.ref /\ obs.ue[u].recs[i].cause = 1)
                       THEN {V("C02", "cause_partial", [split |-> grew])} ELSE {})
         /\ div' = div \cup (IF Explainable(pre, u, a.usage) THEN DivOf(Update(pre, a), obs, resp) ELSE {D("unmodelled")})
@@ -230,9 +231,10 @@ StepRelease ==
               \cup (IF ~known /\ obs # pre
                       THEN {V("C12", "rejection_no_effect", [status |-> resp.status, acct |-> obs.acct # pre.acct,
                                                             stale |-> a.ref \in DOMAIN h.sess])} ELSE {})
-              \cup (IF known /\ resp.status = 204 /\ ~Oversize(u) /\ ~FileHoldsReleased(u, a.ref)
+              \cup (IF known /\ resp.status = 204 /\ UKnown(u) /\ ~Oversize(u) /\ ~FileHoldsReleased(u, a.ref)
                       THEN {V("C02", "file_matches_records", [after |-> "release", split |-> grew])} ELSE {})
-              \cup (IF acted /\ ~(LET is == {i \in 1..Len(obs.ue[u].recs) : obs.ue[u].recs[i].ref = a.ref}
+              \cup (IF acted /\ ~(u \in DOMAIN obs.ue /\
+                                 LET is == {i \in 1..Len(obs.ue[u].recs) : obs.ue[u].recs[i].ref = a.ref}
                                  IN is # {} /\ obs.ue[u].recs[CHOOSE i \in is : \A j \in is : j <= i].cause = 0)
                       THEN {V("C02", "cause_normal", [split |-> grew])} ELSE {})
         /\ div' = div \cup (IF Explainable(pre, u, a.usage) THEN DivOf(Release(pre, a), obs, resp) ELSE {D("unmodelled")})
